@@ -142,10 +142,14 @@ type Frame struct {
 	ct    *Contract
 	loops *loopInfo
 	names map[string]ssa.Value // source names of locals (from DebugRef), latest binding on this path
+	loopEntry map[*ssa.BasicBlock]*Env // environment on first entry to a loop header (for at_loop_entry in invariants)
 }
 
 func (f *Frame) clone() *Frame {
-	n := &Frame{fn: f.fn, regs: make(map[ssa.Value]Val, len(f.regs)), top: f.top, ct: f.ct, loops: f.loops, names: make(map[string]ssa.Value, len(f.names))}
+	n := &Frame{fn: f.fn, regs: make(map[ssa.Value]Val, len(f.regs)), top: f.top, ct: f.ct, loops: f.loops, names: make(map[string]ssa.Value, len(f.names)), loopEntry: map[*ssa.BasicBlock]*Env{}}
+	for k, v := range f.loopEntry {
+		n.loopEntry[k] = v
+	}
 	for k, v := range f.regs {
 		n.regs[k] = v
 	}
@@ -653,8 +657,13 @@ func (ex *Exec) execBlock(fr *Frame, st *State, blk, prev *ssa.BasicBlock, outs 
 			return
 		}
 		ex.evalPhis(fr, st, blk, prev)
+		if fr.loopEntry == nil {
+			fr.loopEntry = map[*ssa.BasicBlock]*Env{}
+		}
+		fr.loopEntry[blk] = ex.invEnv(fr, st, blk)
 		ex.checkInvariants(fr, st, blk, ord, "inv-init")
 		ex.havocLoop(fr, st, blk)
+		ex.havocIterators(st) // a loop may advance any open store iterator
 		st.cut[blk] = true
 		ex.assumeInvariants(fr, st, blk, ord)
 		ex.execInstrs(fr, st, blk, firstNonPhi(blk), outs)
@@ -713,6 +722,10 @@ func (ex *Exec) invEnv(fr *Frame, st *State, blk *ssa.BasicBlock) *Env {
 			}
 		}
 	}
+	if fr.loopEntry != nil {
+		env.loopEntry = fr.loopEntry[blk]
+	}
+	ex.addIterVars(env, st)
 	return env
 }
 
@@ -756,6 +769,12 @@ func (ex *Exec) inlineInvs(fr *Frame, ord int) []*Clause {
 // (it_valid, it_key: the abstract key the iterator stands on, it_store: the snapshot it ranges over).
 func (ex *Exec) inlineInvEnv(st *State) *Env {
 	env := ex.envFor(ex.callers[0], st)
+	ex.addIterVars(env, st)
+	return env
+}
+
+// addIterVars exposes the innermost open store iterator to invariants (it_valid, it_key, it_store).
+func (ex *Exec) addIterVars(env *Env, st *State) {
 	best := 0
 	for id, it := range st.iters {
 		if !it.Closed && id > best {
@@ -769,7 +788,6 @@ func (ex *Exec) inlineInvEnv(st *State) *Env {
 		env.vars["it_key"] = TV{it.Cur, kd.KeySort}
 		env.vars["it_store"] = TV{it.Snapshot, ex.ghostSort(it.Store)}
 	}
-	return env
 }
 
 func (ex *Exec) checkInvList(fr *Frame, st *State, invs []*Clause, label, kind string) {
